@@ -429,3 +429,55 @@ def fixed_grid_matrix_fd(case, ctx):
               analytic=an, fd=fd4b, fd_coarse=fd4_, tol=tol)
     if abs(an) > 1e-4:
         ctx.nontrivial([G.mol_class(mspec), G.model_signature(case["model"]), uks, case["calc"]["plan_type"] if fam == "nldf" else None])
+
+
+# ------------------------------------------------------------------------------------------------
+# the same calculation object at a second geometry (scanners, geometry optimisers, mf.reset(mol))
+@st.composite
+def st_scan(draw):
+    case = draw(st_case(families=("sl", "nldf", "nldf"), grid_response=draw(st.booleans())))
+    case["shift"] = [draw(st.floats(-1, 1)) for _ in range(3 * len(case["mol"]["atoms"]))]
+    return case
+
+
+@subcheck("C17", "forces_scanner_reuse", st_scan, quick=16, thorough=200, tolerances=TOL, shrink=False,
+          rule="chemically reasonable molecule x synthetic model (semilocal / NLDF) x RKS/UKS x DF on/off x grid_response on/off: "
+               "nuc_grad_method().as_scanner() called at geometry A and then at geometry B (every atom moved by up to 0.06 bohr) "
+               "returns at B the energy (1e-8 Eh) and forces (5e-6 Eh/bohr) of a freshly built calculation at B -- the "
+               "calculation, integrator, grids and feature generators of A must not leak into B; non-trivial = both SCFs converged")
+def forces_scanner_reuse(case, ctx):
+    mspec = case["mol"]
+    fam = "nldf" if case["model"]["nldf"] else "sl"
+    ctx.event("family=" + fam)
+    ctx.event("grid_response" if case["grid_response"] else "no_grid_response")
+    coords = np.array([p for _, p in mspec["atoms"]])
+    sh = np.array(case["shift"]).reshape(-1, 3) * 0.06
+    atomsA = [[a, list(p)] for (a, _), p in zip(mspec["atoms"], coords)]
+    atomsB = [[a, list(p)] for (a, _), p in zip(mspec["atoms"], coords + sh)]
+    molA, mfA = _scf(case, atomsA)
+    if not mfA.converged:
+        ctx.event("scf_not_converged")
+        raise Skip()
+    g = mfA.nuc_grad_method()
+    g.grid_response = case["grid_response"]
+    g.verbose = 0
+    scan = g.as_scanner()
+    scan.verbose = 0
+    scan(molA)
+    molB = G.build_mol(mspec, atoms=atomsB)
+    eB_scan, FB_scan = scan(molB)
+    if not scan.base.converged:
+        ctx.event("scf_not_converged_scanner")
+        raise Skip()
+    _, mfB = _scf(case, atomsB, dm0=mfA.make_rdm1())
+    if not mfB.converged:
+        ctx.event("scf_not_converged")
+        raise Skip()
+    gB = mfB.nuc_grad_method()
+    gB.grid_response = case["grid_response"]
+    gB.verbose = 0
+    FB = np.asarray(gB.kernel())
+    ctx.close([eB_scan], [mfB.e_tot], ("scanner_reuse", "energy", fam), rtol=0, atol=1e-8)
+    ctx.close(np.asarray(FB_scan), FB, ("scanner_reuse", "forces", fam, "grid_response" if case["grid_response"] else "no_grid_response"),
+              rtol=0, atol=5e-6)
+    ctx.nontrivial([G.mol_class(mspec), G.model_signature(case["model"]), case["df"], case["uks"], case["grid_response"]])
